@@ -82,6 +82,8 @@ def column(factors, data):
             vals = data[f]
         elif f.startswith("log("):
             vals = [math.log(x) for x in data[inner]]
+        elif f.startswith("exp("):
+            vals = [math.exp(x) for x in data[inner]]
         else:
             raise ValueError("unknown function factor %r" % (f,))
         out = [o * v for o, v in zip(out, vals)]
